@@ -19,6 +19,9 @@ OTHER_SPACE = ["\t", "\u00a0", "\u3000", "\r", "\x0b", "\x0c", "\x1c", "\x85", "
 CONTEXTS = ["arg1", "arg2", "depth2", "depth3", "menu", "casetext", "lang1", "lang2", "ssbs", "ssbs_lang"]
 
 
+HEADER_CONTEXTS = ["menu2", "case", "casevalue", "branch", "assign"]
+
+
 def strings_upto(L, extra_atoms=()):
     yield ""
     alphabet = STR_ALPHABET + list(extra_atoms)
@@ -62,6 +65,31 @@ def build_input(ctx, param):
         ops = [O(0, "message_SwitchMenu", [0, 1]), O(3, "CaseMenu", [param, 9]), O(6, "Jump", [12]), O(9, "in_case", []),
                O(12, "End", [])]
         return [ops], infos, [None], find("CaseMenu", 0)
+    if ctx == "menu2":
+        ops = [O(0, "message_SwitchMenu2", [0, 1]), O(3, "CaseMenu2", [param, 9]), O(6, "Jump", [12]), O(9, "in_case", []),
+               O(12, "End", [])]
+        return [ops], infos, [None], find("CaseMenu2", 0)
+    if ctx == "case":
+        ops = [O(0, "Switch", [SsbOpParamConstant("$SW")]), O(2, "Case", [param, 8]), O(5, "Jump", [10]), O(8, "in_case", []),
+               O(10, "End", [])]
+        return [ops], infos, [None], find("Case", 0)
+    if ctx == "casevalue":
+        ops = [O(0, "SwitchRandom", [param]), O(2, "CaseValue", [3, param, 9]), O(6, "Jump", [11]), O(9, "in_case", []),
+               O(11, "End", [])]
+
+        def locate2(rops):
+            a = [op for r in rops for op in r if op.op_code.name == "SwitchRandom"][0].params[0]
+            b = [op for r in rops for op in r if op.op_code.name == "CaseValue"][0].params[1]
+            if lts.canon_param(a) != lts.canon_param(b):
+                raise LookupError(f"switch header and case header differ: {a!r} {b!r}")
+            return a
+        return [ops], infos, [None], locate2
+    if ctx == "branch":
+        ops = [O(0, "Branch", [SsbOpParamConstant("$V"), param, 6]), O(4, "Jump", [8]), O(6, "in_if", []), O(8, "End", [])]
+        return [ops], infos, [None], find("Branch", 1)
+    if ctx == "assign":
+        ops = [O(0, "flag_Set", [SsbOpParamConstant("$V"), param]), O(3, "End", [])]
+        return [ops], infos, [None], find("flag_Set", 1)
     if ctx == "casetext":
         ops = [O(0, "message_SwitchTalk", [SsbOpParamConstant("$K")]), O(3, "CaseText", [1, param]), O(6, "DefaultText", [param]),
                O(8, "End", [])]
@@ -100,7 +128,7 @@ def roundtrip(kind, value, ctx):
     """-> None if the value survives, else a violation dict."""
     param = make_param(kind, value, ctx)
     want = lts.canon_param(make_param(kind, value, ctx))
-    rops, infos, coros, locate = build_input(ctx if kind == "str" or ctx in CONTEXTS else "arg1", param)
+    rops, infos, coros, locate = build_input(ctx if kind == "str" or ctx in CONTEXTS or ctx in HEADER_CONTEXTS else "arg1", param)
     detail = {"kind": kind, "value": value if kind != "pos" else list(value), "context": ctx}
     try:
         if ctx.startswith("ssbs"):
@@ -228,6 +256,8 @@ def run_case(cid, case):
     if tag == "rt":
         kind, value = case
         ctxs = CONTEXTS if kind == "str" else (["arg1", "arg2", "depth2", "ssbs"] if kind != "pos" else ["arg1", "arg2", "depth3", "ssbs"])
+        if kind in ("int", "const"):
+            ctxs = ctxs + HEADER_CONTEXTS
         viols = []
         for ctx in ctxs:
             v = roundtrip(kind, value, ctx)
@@ -336,7 +366,8 @@ def run(tier, seed):
         rule=f"part A (print -> parse): all strings of length <= {L} over {{a, blank, newline, ', \", backslash, n}} (+ both "
              f"triple-quote sequences as atoms up to {3 if quick else 4} atoms) in 10 printing contexts (argument first / "
              "second, if-depth 2 and 3, case menu() header, CaseText+DefaultText, language string with 1 and 2 languages, "
-             "SsbScript decompiler plain and language string); integers (" + ("20 boundary values" if quick else "all 65536 16-bit values") +
+             "SsbScript decompiler plain and language string); integers and constants additionally as menu2() / case / operator-case / "
+             "switch header, if condition and assignment operand; integers (" + ("20 boundary values" if quick else "all 65536 16-bit values") +
              "), fixed point k/256 (" + ("every 7th of" if quick else "all") + " 32768 values), constants, position marks (names x "
              "half-tile offsets x coordinates), routine targets; part B (spelling -> value): integer spellings in 4 bases, 25 decimal "
              f"spellings, all single-line literals with bodies of length <= {L} using only documented escapes in both quote "
